@@ -1,31 +1,32 @@
 (* Correspondence checker for C20: kind 1 = the counts (or the staged totals)
    the device shows differ from the model's prediction; kind 2 = the
    specification (conservation) fails on the observed counts.
-   Position = 10*step + part (kind 1: 1..5 pool, 6 staged elements, 7 staged containers; kind 2: pool). *)
+   Position = 10*step + part (kind 1: 1..5 pool, 6 staged elements, 7 staged containers, 8 ownership, 9 autodraining queues; kind 2: pool / 6 ownership). *)
 From WG Require Import Base.Prelude Gen.Constants Pools.Model Pools.Spec.
 Local Open Scope N_scope.
 
 Record case := { c_cfg : cfg; c_trace : list (ev * obs) }.
 Definition mkcase (tun bind nrecv : N) (tr : list (ev * obs)) : case :=
   {| c_cfg := {| c_tun := tun; c_bind := bind; c_nrecv := nrecv |}; c_trace := tr |}.
-Definition mkobs (counts : list N) (selems sconts owner : N) : obs :=
-  {| o_counts := {| inC := nth 0 counts 0; outC := nth 1 counts 0; buf := nth 2 counts 0; inE := nth 3 counts 0;
-                    outE := nth 4 counts 0 |};
-     o_selems := selems; o_sconts := sconts; o_owner := owner |}.
+Definition mkvec (l : list N) : vec :=
+  {| inC := nth 0 l 0; outC := nth 1 l 0; buf := nth 2 l 0; inE := nth 3 l 0; outE := nth 4 l 0 |}.
+Definition mkobs (counts : list N) (selems sconts owner : N) (lost : list N) : obs :=
+  {| o_counts := mkvec counts; o_selems := selems; o_sconts := sconts; o_owner := owner; o_lost := mkvec lost |}.
 
 Definition obs_diff (m b : obs) : N :=
   match vdiff (o_counts m) (o_counts b) with
   | d :: _ => d
   | [] => if negb (o_selems m =? o_selems b) then 6 else if negb (o_sconts m =? o_sconts b) then 7
-          else if negb (o_owner m =? o_owner b) then 8 else 0
+          else if negb (o_owner m =? o_owner b) then 8
+          else match vdiff (o_lost m) (o_lost b) with _ :: _ => 9 | [] => 0 end
   end.
 
-Fixpoint first_mismatch (s : state) (tr : list (ev * obs)) (i : N) : option N :=
+Fixpoint first_mismatch (s : xstate) (tr : list (ev * obs)) (i : N) : option N :=
   match tr with
   | [] => None
   | (e, b) :: r =>
-      let s1 := step_state s e in
-      let d := obs_diff (observe s1) b in
+      let s1 := xstep_state s e in
+      let d := if unobserved b then 0 else obs_diff (observe s1) b in
       if d =? 0 then first_mismatch s1 r (i + 1) else Some (10 * i + d)
   end.
 
@@ -37,7 +38,7 @@ Fixpoint first_verdict (vs : list (list N)) (i : N) : option N :=
   end.
 
 Definition check_case (k : case) : list (N * N) :=
-  (match first_mismatch (init (c_cfg k)) (c_trace k) 0 with Some p => [(1, p)] | None => [] end) ++
+  (match first_mismatch (xinit (c_cfg k)) (c_trace k) 0 with Some p => [(1, p)] | None => [] end) ++
   (match first_verdict (verdicts (c_cfg k) (c_trace k)) 0 with Some p => [(2, p)] | None => [] end).
 
 Fixpoint check_cases (ks : list case) (idx : N) : list (N * N * N) :=
@@ -69,6 +70,7 @@ Definition classify (s : state) (e : ev) (s1 : state) (st : list N) : list N :=
   match e with
   | ETunErr pkts => bump (bump st 29 1) 1 (lenN pkts)
   | EFatalRead => bump st 30 1
+  | EStraggle _ _ _ => bump st 31 1
   | ETun pkts =>
       let routed := count (fun p => match p with TRoute j => match find_peer j (s_peers s) with Some _ => true | None => false end
                                               | _ => false end) pkts in
@@ -100,4 +102,4 @@ Fixpoint stats_run (s : state) (evs : list ev) (st : list N) : list N :=
   | e :: r => let s1 := step_state s e in stats_run s1 r (classify s e s1 st)
   end.
 Definition stats (ks : list case) : list N :=
-  fold_left (fun st k => stats_run (init (c_cfg k)) (map fst (c_trace k)) st) ks (repeat 0 31).
+  fold_left (fun st k => stats_run (init (c_cfg k)) (map fst (c_trace k)) st) ks (repeat 0 32).
